@@ -154,9 +154,11 @@ theorem C12_isolation (E : Env) (go : Go) (tpl name : Bytes) (args : List Val) (
     template, same macro, same argument values, same resulting state), each under the condition that
     makes its route resolve:
       1. `m(args)`          — `m` resolves to the macro (`{% macro m %}` of this template was rendered, or `from L import m`);
-      2. `_self.m(args)`    — the same, and `_self` is neither a macro nor a variable, and no function-call
-                              mechanism claims the name `m` before the macro lookup of `CallFunction`;
-      3. `lib.m(args)`      — the variable `lib` holds a module map with `m ↦ macro L m` (`import L as lib`);
+      2. `_self.m(args)`    — the same; `_self` is a variable or at least not a macro, and does not hold a
+                              module map; no function-call mechanism claims the name `m` before the macro
+                              lookup of `CallFunction`;
+      3. `lib.m(args)`      — the variable `lib` holds a module map with `m ↦ macro L m` (`import L as lib`)
+                              — a macro that is also called `lib` does not matter, the variable shadows it;
       4. `m(args)` after `from L import m`  — as 1;
       5. `a(args)` after `from L import m as a` — `a` resolves to the macro `(L, m)`. -/
 theorem C12_routes_agree (E : Env) (L m a lib : Bytes) (args : List Expr) (st st1 : St) (av : List Val)
@@ -167,15 +169,16 @@ theorem C12_routes_agree (E : Env) (L m a lib : Bytes) (args : List Expr) (st st
     (st.ctx.getMacro m = some (L, m) →
         evalX E true (.call m args) st = .ok ((.callable L m av, []), st1)) ∧
     (st.ctx.getMacro m = some (L, m) → plainName E m →
-      st.ctx.getMacro (b "_self") = none → st.ctx.getVar (b "_self") = .null →
+      (st.ctx.hasVar (b "_self") = true ∨ st.ctx.getMacro (b "_self") = none) →
+      (∀ kvs, st.ctx.getVar (b "_self") ≠ .map kvs) →
         evalX E true (.mcall (.var (b "_self")) m args) st = .ok ((.callable L m av, []), st1)) ∧
-    (st.ctx.getMacro lib = none → st.ctx.getVar lib = .map kvs → mapGet m kvs = some (.macro L m) →
+    (st.ctx.getVar lib = .map kvs → mapGet m kvs = some (.macro L m) →
         evalX E true (.mcall (.var lib) m args) st = .ok ((.callable L m av, []), st1)) ∧
     (st.ctx.getMacro a = some (L, m) →
         evalX E true (.call a args) st = .ok ((.callable L m av, []), st1)) :=
   ⟨fun h => route_call hallow_m h hargs,
    fun h hp hs hv => route_self hallow_m hs hv hargs hp h,
-   fun hl hv hm => route_import hallow_m hl hv hm hargs,
+   fun hv hm => route_import hallow_m hv hm hargs,
    fun h => route_call hallow_a h hargs⟩
 
 /-- hence the same output: printing the call written in any resolving way is the same macro call
@@ -273,39 +276,38 @@ theorem C12_siblings (E : Env) (tpl : Bytes) (nodes : List Node) (c : Ctx) (vars
    fun _ st _ _ _ hctx hallow hargs =>
      route_call hallow (by rw [hctx]; exact macroCtx_getMacro_sibling hs) hargs⟩
 
-/-! ## reading a parameter: macro names come first -/
+/-! ## reading a parameter -/
 
-/-- `C12_param_read_partial`: inside the macro body the NAME of a parameter evaluates to the bound value —
-    EXCLUDING the case that a macro of that name is visible from the body (a top-level macro of the
-    defining template, or any macro in the caller's scope chain, e.g. an alias made by
-    `from … import … as p`): `EvaluateExpression` looks a name up as a macro before it looks it up as
-    a variable (`C12_param_read_counterexample`).  What is missing for the full statement "parameters
-    shadow everything outer of the same name" is exactly that exclusion. -/
-theorem C12_param_read_partial (E : Env) (tpl : Bytes) (nodes : List Node) (c : Ctx) (vars : List (Bytes × Val))
+/-- `C12_param_read`: inside the macro body the NAME of a parameter evaluates to the bound value,
+    whatever macros are visible from the body (siblings of the defining template, macros and aliases
+    in the caller's scope chain): the parameter is a variable of the macro context's own map, and a
+    variable shadows a macro of the same name (`EvaluateExpression` asks `hasVariable` first). -/
+theorem C12_param_read (E : Env) (tpl : Bytes) (nodes : List Node) (c : Ctx) (vars : List (Bytes × Val))
     (p : Bytes) (v : Val) (ap : Bool) (st : St)
     (hctx : st.ctx = macroCtx E tpl nodes c vars)
-    (hnomacro : (macroCtx E tpl nodes c vars).getMacro p = none)
     (hv : getKV p vars = some v) :
     evalX E ap (.var p) st = .ok ((v, []), st) := by
-  simp only [evalX, hctx, hnomacro, macroCtx_getVar_param hv, pure_eq_ok]
+  have hh : st.ctx.hasVar p = true := by
+    rw [hctx]; simp only [Ctx.hasVar, macroCtx, hv, Option.isSome_some, Bool.true_or]
+  rw [evalVar_of_hasVar hh, hctx, macroCtx_getVar_param hv]
 
-/-- the exclusion is needed: the caller has a macro called `a` (bytes `[97]`), the called macro has a
-    parameter `a` bound to 1 — in the body `a` evaluates to the caller's macro, not to 1.
-    (Same in the Go code: `EvaluateExpression`, `*VariableNode` case, calls `GetMacro` — which walks the
-    parent chain — before `GetVariable`.) -/
-theorem C12_param_read_counterexample :
-    ∃ (E : Env) (tpl : Bytes) (nodes : List Node) (c : Ctx) (vars : List (Bytes × Val)) (p : Bytes) (v : Val) (st : St),
-      st.ctx = macroCtx E tpl nodes c vars ∧ getKV p vars = some v ∧
-      evalX E true (.var p) st ≠ .ok ((v, []), st) := by
-  refine ⟨{ tpls := [] }, [108], [], { macros := [([97], [108], [109])] }, [([97], .int 1)], [97], .int 1,
-    { ctx := macroCtx { tpls := [] } [108] [] { macros := [([97], [108], [109])] } [([97], .int 1)] }, rfl, rfl, ?_⟩
-  have : evalX { tpls := [] } true (.var [97])
+/-- the lookup order of the PINNED tree (macro first, then variable), kept for the regression below -/
+def pinnedVarLookup (c : Ctx) (n : Bytes) : Val :=
+  match c.getMacro n with
+  | some (t, m) => .macro t m
+  | none => c.getVar n
+
+/-- pinned regression: the caller has a macro called `a` (bytes `[97]`, e.g. `from lib import m as a`),
+    the called macro has a parameter `a` bound to 1.  With the pinned lookup order the body reads the
+    caller's macro; the repaired `evalX` reads 1. -/
+theorem C12_counterexample_pinned_param_hidden :
+    pinnedVarLookup (macroCtx { tpls := [] } [108] [] { macros := [([97], [108], [109])] } [([97], .int 1)]) [97]
+      = .macro [108] [109] ∧
+    evalX { tpls := [] } true (.var [97])
       { ctx := macroCtx { tpls := [] } [108] [] { macros := [([97], [108], [109])] } [([97], .int 1)] } =
-      .ok ((.macro [108] [109], []),
-        { ctx := macroCtx { tpls := [] } [108] [] { macros := [([97], [108], [109])] } [([97], .int 1)] }) := rfl
-  rw [this]
-  intro h
-  cases h
+      .ok ((.int 1, []),
+        { ctx := macroCtx { tpls := [] } [108] [] { macros := [([97], [108], [109])] } [([97], .int 1)] }) :=
+  ⟨rfl, C12_param_read _ _ _ _ _ _ _ _ _ rfl rfl⟩
 
 /-! ## non-vacuity (tests, not theorems: closed instances evaluated by the kernel) -/
 
@@ -330,14 +332,13 @@ example :
     evalX E true (.call a [.int 1]) st = .ok ((.callable L m [.int 1], []), st) := by
   obtain ⟨f1, f2, f3, f4, f5, f6, f7, f8, f9⟩ := facts
   obtain ⟨r1, r2, r3, r4⟩ := C12_routes_agree E L m a lib [.int 1] st st [.int 1] [(m, .macro L m)] rfl rfl rfl
-  refine ⟨r1 ?_, r2 ?_ ⟨f7, f8, f9, rfl⟩ ?_ ?_, r3 ?_ ?_ ?_, r4 ?_⟩
+  refine ⟨r1 ?_, r2 ?_ ⟨f7, f8, f9, rfl⟩ (Or.inr ?_) ?_, r3 ?_ ?_, r4 ?_⟩
   · simp [Ctx.getMacro, getKV, st]
   · simp [Ctx.getMacro, getKV, st]
   · show st.ctx.getMacro self = none
     simp [Ctx.getMacro, getKV, st, List.find?, f1, f2, scopesMacro]
-  · show st.ctx.getVar self = .null
-    simp [Ctx.getVar, getKV, st, List.find?, f3, scopesVar]
-  · simp [Ctx.getMacro, getKV, st, List.find?, f4, f5, scopesMacro]
+  · have : st.ctx.getVar self = .null := by simp [Ctx.getVar, getKV, st, List.find?, f3, scopesVar]
+    intro kvs h; rw [show b "_self" = self from rfl, this] at h; cases h
   · simp [Ctx.getVar, getKV, st]
   · simp [mapGet]
   · simp [Ctx.getMacro, getKV, st, List.find?, f6]
@@ -377,10 +378,9 @@ example : renderSources [("lib", libSrc),
     "main" = some (b "[7|B||][7|7||]") := by
   decide +kernel
 
-/-- the situation of `C12_param_read_counterexample` from source: the model refuses (printing a macro
-    object would expose an address), it does not print the parameter -/
+/-- the situation of the pinned regression from source: the parameter `a` is read, not the caller's alias `a` -/
 example : renderSources [("lib", "{% macro m(a) %}[{{ a }}]{% endmacro %}"),
-    ("main", "{% from 'lib' import m as a %}{{ a(1) }}")] "main" = none := by
+    ("main", "{% from 'lib' import m as a %}{{ a(1) }}")] "main" = some (b "[1]") := by
   decide +kernel
 
 end C12Ex
